@@ -1739,6 +1739,34 @@ func (w *world) storm() {
 			}
 		}(f)
 	}
+	// peers' finished VAAs and guardian-set updates arrive meanwhile on their own channels
+	inbound := make([][]byte, 0, 12)
+	for k := 0; k < 12; k++ {
+		inbound = append(inbound, w.buildInbound(simkit.Step{Op: "vaa", A: encodeMsg(k%14, 0, 0, 0, k%4, 1), B: -1, D: 0}))
+	}
+	wg.Add(2)
+	go func() {
+		defer wg.Done()
+		for _, b := range inbound {
+			select {
+			case w.signedInC <- &gossipv1.SignedVAAWithQuorum{Vaa: b}:
+			case <-w.runDone:
+				return
+			}
+			time.Sleep(700 * time.Millisecond)
+		}
+	}()
+	go func() {
+		defer wg.Done()
+		for k := 0; k < 8 && w.curGS != nil; k++ {
+			select {
+			case w.setC <- w.curGS:
+			case <-w.runDone:
+				return
+			}
+			time.Sleep(1300 * time.Millisecond)
+		}
+	}()
 	wg.Wait()
 	time.Sleep(70 * time.Second)
 	synctest.Wait()
